@@ -61,6 +61,7 @@ type fault struct {
 	status int  // != 0: answer with this status
 	net    bool // the request fails (connection reset)
 	body   bool // the body ends with an error after half of its bytes
+	trunc  bool // the body is cut after half of its bytes (the transfer ends cleanly)
 }
 
 func (f fault) String() string {
@@ -69,6 +70,8 @@ func (f fault) String() string {
 		return "connection-reset"
 	case f.body:
 		return "body-breaks-off"
+	case f.trunc:
+		return "body-cut-short"
 	}
 	return fmt.Sprintf("status-%d", f.status)
 }
@@ -128,7 +131,7 @@ func (w *world) RoundTrip(req *http.Request) (*http.Response, error) {
 	if hasFault && flt.net {
 		return nil, fmt.Errorf("world: connection reset by peer (%s)", key)
 	}
-	if hasFault && (flt.status != 0 || (flt.body && req.Method == http.MethodHead)) {
+	if hasFault && (flt.status != 0 || ((flt.body || flt.trunc) && req.Method == http.MethodHead)) {
 		st := flt.status
 		if st == 0 {
 			st = 503
@@ -136,7 +139,7 @@ func (w *world) RoundTrip(req *http.Request) (*http.Response, error) {
 		r = resp{status: st, body: []byte("transient fault")}
 	}
 	// (a 304 has no body that could break off)
-	if cond && ok && r.status == 200 && (!hasFault || (flt.body && req.Method != http.MethodHead)) {
+	if cond && ok && r.status == 200 && (!hasFault || ((flt.body || flt.trunc) && req.Method != http.MethodHead)) {
 		if inm := req.Header.Get("If-None-Match"); inm != "" && inm == r.header["etag"] {
 			r = resp{status: 304, header: r.header}
 		} else if ims := req.Header.Get("If-Modified-Since"); ims != "" && ims == r.header["last-modified"] {
@@ -154,6 +157,9 @@ func (w *world) RoundTrip(req *http.Request) (*http.Response, error) {
 	var rc io.ReadCloser = io.NopCloser(bytes.NewReader(body))
 	if hasFault && flt.body && req.Method != http.MethodHead && r.status != 304 {
 		rc = &brokenBody{bytes.NewReader(body[:len(body)/2])}
+	}
+	if hasFault && flt.trunc && req.Method != http.MethodHead && r.status != 304 {
+		rc = io.NopCloser(bytes.NewReader(body[:len(body)/2]))
 	}
 	return &http.Response{
 		StatusCode:    r.status,
